@@ -405,3 +405,125 @@ func validateValue(s *jschema.Schema, v Value) Outcome {
 	text := v.JSON()
 	return guard(func() error { return s.Validate(jdoc.New("doc", text)) })
 }
+
+// ---- serialisation back to the spec's record shapes (exactly the fields of each kind, empty sequences kept) ----
+
+func orEmptyInts(a []int) []int {
+	if a == nil {
+		return []int{}
+	}
+	return a
+}
+
+func (v Value) MarshalJSON() ([]byte, error) {
+	switch v.T {
+	case "bool":
+		return json.Marshal(map[string]interface{}{"t": v.T, "bv": v.Bv})
+	case "num":
+		return json.Marshal(map[string]interface{}{"t": v.T, "b": orEmptyInts(v.B)})
+	case "str":
+		return json.Marshal(map[string]interface{}{"t": v.T, "c": orEmptyInts(v.C)})
+	case "arr":
+		items := v.Items
+		if items == nil {
+			items = []Value{}
+		}
+		return json.Marshal(map[string]interface{}{"t": v.T, "items": items})
+	case "obj":
+		ps := v.Ps
+		if ps == nil {
+			ps = []KV{}
+		}
+		return json.Marshal(map[string]interface{}{"t": v.T, "ps": ps})
+	}
+	return json.Marshal(map[string]interface{}{"t": v.T})
+}
+
+func (r RV) MarshalJSON() ([]byte, error) {
+	m := map[string]interface{}{"t": r.T}
+	switch r.T {
+	case "bool":
+		m["bv"] = r.Bv
+	case "num":
+		m["b"] = orEmptyInts(r.B)
+	case "id", "tref", "name":
+		m["s"] = r.S
+	case "chars":
+		m["c"] = orEmptyInts(r.C)
+	case "re":
+		m["re"] = r.Re
+	case "val":
+		m["v"] = r.V
+	case "list":
+		items := r.Items
+		if items == nil {
+			items = []RV{}
+		}
+		m["items"] = items
+	case "set":
+		rules := r.Rules
+		if rules == nil {
+			rules = []Rule{}
+		}
+		m["rules"] = rules
+	}
+	return json.Marshal(m)
+}
+
+func (re RE) MarshalJSON() ([]byte, error) {
+	m := map[string]interface{}{"t": re.T}
+	switch re.T {
+	case "chr":
+		m["c"] = re.C
+	case "set":
+		m["cs"] = orEmptyInts(re.Cs)
+		m["neg"] = re.Neg
+	case "cat", "alt":
+		m["a"], m["b"] = re.A, re.B
+	case "opt", "star", "plus":
+		m["a"] = re.A
+	}
+	return json.Marshal(m)
+}
+
+func (n Node) MarshalJSON() ([]byte, error) {
+	rules := n.Rules
+	if rules == nil {
+		rules = []Rule{}
+	}
+	m := map[string]interface{}{"t": n.T, "rules": rules}
+	switch n.T {
+	case "lit":
+		m["v"] = n.V
+	case "obj":
+		props := n.Props
+		if props == nil {
+			props = []Prop{}
+		}
+		m["props"] = props
+	case "arr":
+		items := n.Items
+		if items == nil {
+			items = []Node{}
+		}
+		m["items"] = items
+	case "ref":
+		m["names"] = n.Names
+	}
+	return json.Marshal(m)
+}
+
+func (p Prop) MarshalJSON() ([]byte, error) {
+	return json.Marshal(map[string]interface{}{"k": p.K, "sc": p.Sc, "kt": p.Kt, "n": p.N})
+}
+
+func (e Env) MarshalJSON() ([]byte, error) {
+	types, enums := e.Types, e.Enums
+	if types == nil {
+		types = []NamedNode{}
+	}
+	if enums == nil {
+		enums = []NamedEnum{}
+	}
+	return json.Marshal(map[string]interface{}{"types": types, "enums": enums})
+}
